@@ -472,6 +472,7 @@ func checkC01(p *Program, r *Report) {
 	}
 	// raw public key hex arm: lengths are twice the key lengths; String and ScriptAddress share the serialiser
 	c01pubkey(p, r, da)
+	c01stages(p, r, da)
 	r.Floor("C01.kinds", 20)
 
 	c01membership(p, r, addrTypes)
@@ -705,10 +706,145 @@ func c01hashing(p *Program, r *Report, addrTypes []*types.Named) {
 					}
 				}
 				r.Add("C01.hashing", FnName(fn), fmt.Sprintf("script is hashed as %s for the %d-byte kind", want, hl), c.Pos(), ok2, "computed: "+ev.Pretty(t))
+				// the constructor is total on scripts: it rejects nothing itself, only the hash-taking constructor it delegates to can
+				ei := errResultIndex(fn)
+				for _, ret := range returnsOf(fn) {
+					if ei < 0 || ei >= len(ret.Results) {
+						continue
+					}
+					ev2 := ret.Results[ei]
+					okTotal := isNilConst(ev2)
+					how := "error result " + exprString(ev2)
+					if ex, ok := ev2.(*ssa.Extract); ok {
+						if dc, ok := ex.Tuple.(*ssa.Call); ok && dc.Call.StaticCallee() != nil && p.InRepo(dc.Call.StaticCallee()) {
+							// the delegate receives the hash computed above
+							for _, a := range dc.Call.Args {
+								if a == ssa.Value(c) {
+									okTotal = true
+									how = "error comes from " + FnName(dc.Call.StaticCallee()) + " applied to the hash"
+								}
+							}
+						}
+					}
+					r.Add("C01.hashing", FnName(fn), "the script-taking constructor accepts every script (no rejection of its own)", ret.Pos(), okTotal, how)
+				}
 			}
 		}
 	}
 	if n < 3 {
 		r.Add("C01.hashing", "-", fmt.Sprintf("vacuity: %d script-taking constructors found, floor 3", n), token.NoPos, false, "kind=below-floor")
 	}
+	r.Floor("C01.hashing", 6)
+}
+
+// c01stages: DecodeAddress tries the formats in turn; a stage may give a verdict (return) only on a
+// string it has recognised, otherwise the string must fall through to the later stages, or legacy
+// and public-key strings (which never pass the CashAddr checksum) stop decoding.
+func c01stages(p *Program, r *Report, da *ssa.Function) {
+	cash := p.Func("", "checkDecodeCashAddress")
+	b58 := p.Func("base58", "CheckDecode")
+	if cash == nil || b58 == nil {
+		r.Unresolved("C01.stages", "checkDecodeCashAddress / base58.CheckDecode")
+		return
+	}
+	var laterBlocks []*ssa.BasicBlock
+	cashErr := map[ssa.Value]bool{} // error results of the CashAddr stage calls
+	for _, b := range da.Blocks {
+		for _, in := range b.Instrs {
+			c, ok := in.(*ssa.Call)
+			if !ok {
+				continue
+			}
+			switch {
+			case c.Call.StaticCallee() == cash:
+				for _, ref := range *c.Referrers() {
+					if ex, ok := ref.(*ssa.Extract); ok && ex.Index == errResultIndex(cash) {
+						cashErr[ex] = true
+					}
+				}
+			case c.Call.StaticCallee() == b58 || staticCalleeIs(&c.Call, "encoding/hex.DecodeString"):
+				laterBlocks = append(laterBlocks, b)
+			}
+		}
+	}
+	if len(cashErr) == 0 || len(laterBlocks) < 2 {
+		r.Unresolved("C01.stages", "the CashAddr, hex and Base58Check stages of DecodeAddress")
+		return
+	}
+	n := 0
+	for _, ret := range returnsOf(da) {
+		rb := ret.Block()
+		inLater := false
+		for _, lb := range laterBlocks {
+			if lb.Dominates(rb) {
+				inLater = true
+			}
+		}
+		if inLater {
+			continue
+		}
+		n++
+		conds := MustCondsAtBlock(da, rb)
+		recognised := false
+		onlyLength := len(conds) > 0
+		for _, cd := range conds {
+			bo, truth, ok := condBinOp(cd)
+			if !ok {
+				onlyLength = false
+				continue
+			}
+			if (bo.Op == token.EQL && truth || bo.Op == token.NEQ && !truth) && (cashErr[bo.X] && isNilConst(bo.Y) || cashErr[bo.Y] && isNilConst(bo.X)) {
+				recognised = true
+			}
+			isLen := func(v ssa.Value) bool {
+				c, ok := v.(*ssa.Call)
+				return ok && isBuiltin(&c.Call, "len") && c.Call.Args[0] == ssa.Value(da.Params[0])
+			}
+			if !isLen(bo.X) && !isLen(bo.Y) {
+				onlyLength = false
+			}
+		}
+		if !onlyLength && len(rb.Preds) > 0 {
+			// short-circuit guard: every edge into the return is a comparison on len(addr), evaluated before any stage ran
+			onlyLength = true
+			for _, pb := range rb.Preds {
+				cd, ok := edgeCond(pb, rb)
+				bo, _, ok2 := condBinOp(cd)
+				if !ok || !ok2 {
+					onlyLength = false
+					continue
+				}
+				isLen := func(v ssa.Value) bool {
+					c, ok := v.(*ssa.Call)
+					return ok && isBuiltin(&c.Call, "len") && c.Call.Args[0] == ssa.Value(da.Params[0])
+				}
+				if !isLen(bo.X) && !isLen(bo.Y) {
+					onlyLength = false
+				}
+				for _, lb := range laterBlocks {
+					if reachableFrom(lb, nil)[pb] {
+						onlyLength = false
+					}
+				}
+				for ce := range cashErr {
+					if reachableFrom(ce.(*ssa.Extract).Block(), nil)[pb] {
+						onlyLength = false
+					}
+				}
+			}
+		}
+		what := "a CashAddr-stage return happens only after the CashAddr checksum accepted the string"
+		switch {
+		case recognised:
+			r.Add("C01.stages", FnName(da), what, ret.Pos(), true, "dominated by err == nil of checkDecodeCashAddress")
+		case onlyLength:
+			r.Except("C01.stages", FnName(da), what, ret.Pos(), "entry length guard: only conditions on len(addr) lead here; premise: every legacy, public-key and CashAddr string is longer than the longest prefix plus two")
+		default:
+			r.Add("C01.stages", FnName(da), what, ret.Pos(), false, "a string the CashAddr stage did not recognise is rejected before the public-key and Base58Check stages run")
+		}
+	}
+	if n == 0 {
+		r.Unresolved("C01.stages", "returns of the CashAddr stage")
+	}
+	r.Floor("C01.stages", 8)
 }
